@@ -124,9 +124,11 @@ pub struct Args {
     pub out: Option<String>,
     pub replay: Option<String>,
     pub rest: Vec<String>,
+    /// (i, n): execute only the case blocks with index % n == i
+    pub shard: Option<(usize, usize)>,
 }
 pub fn parse_args(a: &[String]) -> Args {
-    let mut r = Args { tier: "quick".into(), seed: 1, out: None, replay: None, rest: vec![] };
+    let mut r = Args { tier: "quick".into(), seed: 1, out: None, replay: None, rest: vec![], shard: None };
     let mut i = 0;
     while i < a.len() {
         match a[i].as_str() {
@@ -134,6 +136,7 @@ pub fn parse_args(a: &[String]) -> Args {
             "--seed" => { r.seed = a[i + 1].parse().unwrap_or(1); i += 2; }
             "--out" => { r.out = Some(a[i + 1].clone()); i += 2; }
             "--replay" => { r.replay = Some(a[i + 1].clone()); i += 2; }
+            "--shard" => { let p: Vec<usize> = a[i + 1].split('/').map(|x| x.parse().unwrap()).collect(); r.shard = Some((p[0], p[1])); i += 2; }
             _ => { r.rest.push(a[i].clone()); i += 1; }
         }
     }
